@@ -239,6 +239,10 @@ Step(o, ev, seq) ==
     [] ev.e = "SetBlock" -> ObsSetBlock(o, ev)
     [] ev.e = "Refill" -> ObsRefill(o, ev)
     [] ev.e = "Probe" -> ObsProbe(o, ev, seq)
+    [] ev.e = "Lookup" -> \* a finished lookup: addresses it decided to query vs. addresses a query was written to
+         IF ev.tried > ev.written
+         THEN [o EXCEPT !.bad = @ \cup {Tag({"C19"}, "a lookup tried to query an address the node may not send to (blocklisted or unusable)", seq)}]
+         ELSE o
     [] ev.e = "Forget" -> [o EXCEPT !.oblig = {}, !.expect = {}]   \* replies were lost to injected write failures
     [] OTHER -> o
 
